@@ -2,9 +2,9 @@ package vc
 
 import (
 	"fmt"
-	"os"
 	"go/token"
 	"go/types"
+	"os"
 	"strings"
 
 	"golang.org/x/tools/go/ssa"
@@ -135,6 +135,11 @@ func (f *frame) invokeStatic(n *node, callee *ssa.Function, args []Val, binds []
 			return r, true
 		}
 	}
+	if x.w.Opaque[name] && x.w.isSpecFunc(callee) {
+		if r, ok := f.opaqueCall(n, callee, args); ok {
+			return r, true
+		}
+	}
 	full := fullName(callee)
 	if m, ok := x.w.Models[full]; ok {
 		mf := x.w.specFunc(m)
@@ -219,17 +224,24 @@ func (f *frame) inline(n *node, callee *ssa.Function, args []Val, binds []Val, s
 	}
 	// path-sensitive continuation: when the callee returns along a few distinct paths, the
 	// rest of the caller's block is executed once per return instead of on merged values
-	if in := f.curCall; in != nil && !f.spec && !x.inSpec() && !x.noFork && len(sub.rets) > 1 && len(sub.rets) <= 6 {
+	if in := f.curCall; in != nil && !f.spec && !x.inSpec() && !x.noFork && len(sub.rets) > 1 && len(sub.rets) <= 128 {
 		p := n
 		if n.primary != nil {
 			p = n.primary
 		}
-		if len(p.clones)+len(sub.rets) <= 24 {
+		if len(p.clones)+len(sub.rets) <= 2000 {
 			if os.Getenv("IONVC_DEBUG") != "" {
 				fmt.Fprintf(os.Stderr, "fork %s in %s: %d returns\n", callee.Name(), f.fn.Name(), len(sub.rets))
+				if os.Getenv("IONVC_DEBUG") == "2" {
+					for _, r := range sub.rets {
+						fmt.Fprintf(os.Stderr, "    ret at %v reach=%s facts=%v\n", x.w.Prog.Fset.Position(r.pos), r.reach, r.facts)
+					}
+				}
 			}
 			for _, r := range sub.rets[1:] {
 				c := n.fork()
+				x.nextPC++
+				c.pc = x.nextPC
 				c.heap = r.heap.clone()
 				c.reach = r.reach
 				c.env[in] = r.val
@@ -457,7 +469,7 @@ func (f *frame) intrinsic(n *node, callee *ssa.Function, args []Val) (Val, bool)
 			bv = g.Const("forall."+cl.Fn.Params[0].Name(), cs[0].sort)
 			sk.name, sk.sort, sk.v = bv, cs[0].sort, Val{T: pt, C: []string{bv}}
 		} else {
-			g.PushScope()
+			g.PushScope(bv)
 		}
 		sub := &frame{x: x, fn: cl.Fn, spec: true, paramVals: map[*ssa.Parameter]Val{}, freeVals: map[*ssa.FreeVar]Val{}}
 		sub.paramVals[cl.Fn.Params[0]] = Val{T: pt, C: []string{bv}}
@@ -490,10 +502,18 @@ func (f *frame) intrinsic(n *node, callee *ssa.Function, args []Val) (Val, bool)
 		}
 		*x.modCollect = append(*x.modCollect, modLoc{ptr: a.Bind[0], elems: name == "vcModElems"})
 		return Val{T: callee.Signature.Results()}, true
-	case name == "vcStreamOf":
+	case name == "vcStreamOf" || name == "vcBufferOf":
 		// ghost view of a *bufio.Reader
 		a := args[0]
 		return Val{T: callee.Signature.Results().At(0).Type(), C: a.C, Old: a.Old}, true
+	case name == "vcStreamOfReader" || name == "vcBufferOfWriter":
+		// ghost view of a *bufio.Reader held in an io.Reader
+		a := args[0]
+		ref := a.C[len(a.C)-1]
+		if len(a.Bind) == 1 && len(a.Bind[0].C) == 1 {
+			ref = a.Bind[0].C[0]
+		}
+		return Val{T: callee.Signature.Results().At(0).Type(), C: []string{ref}, Old: a.Old}, true
 	case name == "vcFresh":
 		// vcFresh(p): the object (pointer, slice backing array, map) p refers to was allocated
 		// by the function the clause belongs to
@@ -754,4 +774,60 @@ func (f *frame) copyBuiltin(n *node, in *ssa.Call) Val {
 		}
 	}
 	return Val{T: in.Type(), C: []string{cnt}}
+}
+
+// opaqueCall translates a call of an opaque specification function to the application of
+// an uninterpreted function to the flattened arguments (slices and strings are passed as
+// their contents, offset and length). A proof that `reveal`s the function additionally
+// gets its definition for this application.
+func (f *frame) opaqueCall(n *node, callee *ssa.Function, args []Val) (Val, bool) {
+	x := f.x
+	g := x.g
+	revealed := false
+	if x.ctr != nil {
+		for _, r := range x.ctr.Reveal {
+			if r == callee.Name() {
+				revealed = true
+			}
+		}
+	}
+	if revealed && g.InQuant() {
+		return Val{}, false // use the definition directly
+	}
+	rt := resultType(callee.Signature)
+	rc := x.comps(rt)
+	if len(rc) != 1 {
+		unsup("opaque function %s must return a scalar", callee.Name())
+	}
+	var terms, sorts []string
+	for i, a := range args {
+		switch u := callee.Params[i].Type().Underlying().(type) {
+		case *types.Slice:
+			ec := x.comps(u.Elem())
+			if len(ec) != 1 {
+				unsup("opaque function %s: slice of %s", callee.Name(), u.Elem())
+			}
+			arr := x.hget(f.heapFor(n, a), x.sliceKey(a)+ec[0].suffix+"[]", ec[0].sort, SortBV64)
+			terms = append(terms, g.Fresh(arrSort(SortBV64, ec[0].sort), "(select "+arr+" "+a.C[0]+")"), a.C[1], a.C[2])
+			sorts = append(sorts, arrSort(SortBV64, ec[0].sort), SortBV64, SortBV64)
+		case *types.Basic:
+			cs := x.comps(callee.Params[i].Type())
+			for k, c := range cs {
+				terms = append(terms, a.C[k])
+				sorts = append(sorts, c.sort)
+			}
+		default:
+			unsup("opaque function %s: parameter of type %s", callee.Name(), callee.Params[i].Type())
+		}
+	}
+	fn := g.Fun("spec:"+callee.Name(), sorts, rc[0].sort)
+	t := g.Fresh(rc[0].sort, "("+fn+" "+strings.Join(terms, " ")+")")
+	res := Val{T: rt, C: []string{t}}
+	if revealed {
+		def, ok := f.inline(n, callee, args, nil, true, nil)
+		if ok && len(def.C) == 1 {
+			g.Assume(eq(t, def.C[0]))
+		}
+	}
+	return res, true
 }
